@@ -34,7 +34,7 @@ def origin_call(zf, l, depth=0):
 
 
 class Bits:
-    def __init__(self, ctx, cfg, fn, suite):
+    def __init__(self, ctx, cfg, fn, suite, parent=None):
         self.ctx, self.cfg = ctx, cfg
         self.prog, self.eng, self.za = ctx.prog(cfg), ctx.eng(cfg), ctx.zone(cfg)
         self.body = self.prog.bodies[fn]
@@ -42,6 +42,53 @@ class Bits:
         self.zf = self.za.zf(fn)
         self.suite = suite      # {const name: int}
         self.memo = {}
+        self.parent = parent    # for a closure body: the Bits of the function that creates it
+        self._children = {}
+
+    def child(self, cpath):
+        if cpath not in self._children:
+            self._children[cpath] = Bits(self.ctx, self.cfg, cpath, self.suite, parent=self)
+        return self._children[cpath]
+
+    def _closure_value(self, root, path, depth):
+        """bits of a place rooted in the environment (_1) or in the element argument of a closure, read in the creating function"""
+        cctx = self.zf.closure_ctx()
+        if cctx is None or self.parent is None:
+            return None
+        pzf, cb, caps, consumer = cctx
+        if root == 1:
+            if not path or not str(path[0]).isdigit() or int(path[0]) >= len(caps):
+                return None
+            cop = caps[int(path[0])]
+            if cop['k'] not in ('copy', 'move'):
+                return self.parent.bits_op(cop, depth + 1)
+            pl = {'l': cop['pl']['l'], 'p': list(cop['pl'].get('p', [])) + [{'k': 'field', 'n': q, 'adt': ''} for q in path[1:]]}
+            return self.parent.bits_place(pl, depth + 1)
+        if consumer is None:
+            return None
+        bi, t = consumer
+        if not (t.get('callee') or '').startswith('std::iter::Iterator::') or not t['args']:
+            return None
+        want = 3 if (t.get('callee') or '').endswith(('::fold', '::try_fold')) else 2
+        if root != want:
+            return None
+        comps = pzf.iter_components(t['args'][0])
+        if not comps:
+            return None
+        rest = list(path)
+        n = 0
+        if len(comps) > 1:
+            if not rest or not str(rest[0]).isdigit():
+                return None
+            n = int(rest.pop(0))
+        if n >= len(comps) or comps[n] is None or comps[n][0] not in ('cont', 'call', 'same'):
+            return None
+        cl = comps[n][1] if comps[n][0] in ('cont', 'call') else comps[n][2]
+        pl = {'l': cl, 'p': [{'k': 'field', 'n': q, 'adt': ''} for q in rest]}
+        b = self.parent.bits_place(pl, depth + 1)
+        if b is None:
+            return None
+        return b
 
     def const_val(self, op):
         if op['k'] != 'const':
@@ -83,6 +130,10 @@ class Bits:
             return None
         body, fd, zf = self.body, self.fd, self.zf
         root, path = fd.resolve_place(pl)
+        if fd.is_param(root) and body.kind == 'Closure':
+            v = self._closure_value(root, path, depth)
+            if v is not None:
+                return v
         if fd.is_param(root):
             ty = body.local_ty(root)
             return (self.field_bits(ty, path), (body.local_name(root) + ''.join('.' + x for x in path),))
@@ -105,6 +156,15 @@ class Bits:
                         break
                     if best is None or b[0] > best[0]:
                         best = b
+            if best is None:
+                # built by `iter.map(closure).collect()`: every element is what the closure returns
+                oc = origin_call(zf, root)
+                if oc is not None and (oc.get('callee') or '') == 'std::iter::Iterator::collect' and oc['args'] and oc['args'][0]['k'] in ('copy', 'move'):
+                    mc = origin_call(zf, oc['args'][0]['pl']['l'])
+                    if mc is not None and (mc.get('callee') or '') == 'std::iter::Iterator::map' and len(mc['args']) == 2 and mc['args'][1]['k'] in ('copy', 'move'):
+                        ci = fd._closure_info(mc['args'][1]['pl']['l'])
+                        if ci is not None:
+                            best = self.child(ci[0]).bits_place({'l': 0}, depth + 1)
             res = (best[0], (name + '[]',)) if best else None
             if best is not None:
                 self.elem_src = getattr(self, 'elem_src', {})
@@ -219,6 +279,33 @@ def responses(bits):
                             and body.locals[s2['dst']['l']].get('name'):
                         nm = body.locals[s2['dst']['l']]['name']
         out.append((nm, mask, prod, t['line']))
+    # responses computed inside a closure that is mapped over the hidden positions and collected into a named vector
+    if bits.parent is None:
+        for l, rv in sorted(fd.closure_aggs.items()):
+            cpath = rv['name']
+            if cpath not in bits.prog.bodies:
+                continue
+            cb = bits.child(cpath)
+            cctx = cb.zf.closure_ctx()
+            name = None
+            if cctx is not None and cctx[3] is not None and (cctx[3][1].get('callee') or '') == 'std::iter::Iterator::map':
+                # who receives collect(map(..))
+                ml = cctx[3][1]['dst']['l']
+                for bj, t2 in body.calls():
+                    if (t2.get('callee') or '') == 'std::iter::Iterator::collect' and t2['args'] and t2['args'][0]['k'] in ('copy', 'move') \
+                            and fd.base(t2['args'][0]['pl']['l'])[0] == fd.base(ml)[0]:
+                        dl = t2['dst']['l']
+                        for _ in range(4):
+                            if body.locals[dl].get('name'):
+                                name = body.locals[dl]['name'] + '[]'
+                                break
+                            nxt = [s2['dst']['l'] for bk, s2 in body.stmts() if s2['k'] == 'assign' and s2['rv']['k'] == 'use'
+                                   and s2['rv']['op']['k'] in ('copy', 'move') and s2['rv']['op']['pl']['l'] == dl and not s2['dst'].get('p')]
+                            if not nxt:
+                                break
+                            dl = nxt[0]
+            for (nm2, mask2, prod2, line2) in responses(cb):
+                out.append((name or nm2, mask2, prod2, line2))
     return out
 
 
@@ -404,7 +491,7 @@ def rule_key_generation(ctx, cfg='prod-all'):
                     gates.append(g2.what or '')
     has_gt = any('Ordering' in w or 'PartialEq' in w or 'cmp' in w for w in gates)
     cmp_calls = [t for bi, t in b.calls() if (t.get('callee') or '').endswith('Ord::cmp')]
-    gcd_calls = [t for bi, t in b.calls() if (t.get('callee') or '').endswith('::gcd')]
+    gcd_calls = [t for bi, t in b.calls() if (t.get('callee') or '').split('::')[-1] in ('gcd', 'gcd_ref', 'gcd_mut', 'gcd_u')]
     yield Ob('RF-Q', '%s#exit-condition' % RQ, len(cmp_calls) >= 2 and len(gcd_calls) >= 1 and has_gt, 'the loop is left only with qr > 1 and gcd(qr, n) == 1', b.span,
              fact={'cmp_calls': len(cmp_calls), 'gcd_calls': len(gcd_calls)}, expected='2 comparisons, 1 gcd')
     # provenance of b, c, h, a_i, g_i
